@@ -2,7 +2,10 @@
 # Offline setup after a fresh restore: build the harness once so that the Go build cache is warm.
 set -u
 export GOFLAGS= GOPROXY=off GOSUMDB=off GOTOOLCHAIN=local CGO_ENABLED=0
-mkdir -p /verif/.build/bin /verif/evidence
-cd /verif/mc && cp -f /repo/go.work.sum go.work.sum
-go build -tags verif -o /verif/.build/bin/mcheck ./cmd/mcheck || exit 1
+V="$(cd "$(dirname "$0")" && pwd)"; R="${VERIF_REPO:-/repo}"; B="${VERIF_BUILD:-$V/.build}"
+mkdir -p $B/bin $V/evidence
+printf 'go 1.21.4\n\nuse (\n\t%s\n\t%s\n\t%s\n\t%s\n\t%s\n)\n' "$V/mc" "$R" "$R/src/free5gclib" "$R/src/stgutg" "$R/src/tglib" > $B/go.work
+cp -f $R/go.work.sum $B/go.work.sum
+export GOWORK=$B/go.work
+cd $V/mc && go build -tags verif -o $B/bin/mcheck ./cmd/mcheck || exit 1
 echo setup ok
